@@ -133,6 +133,39 @@ theorem brk_set (st : BrkState) (arg : Nat) (hs : st.start ≠ 0) (ha : st.start
   have e : st.start + (arg - st.start) = arg := by omega
   simp [brkCall, brkInit, brkMove, hs, this, hr, u64add, e, harg]
 
+/-! ## the first call (the one that creates the heap) is an ordinary call on a fresh one-page heap -/
+
+/-- **The call that creates the heap obeys its argument like every other call**: with no heap yet (`start = 0` is the
+    "not created" sentinel — it is the *bookkeeping* that decides, never the presence of some area, e.g. one at address 0)
+    the call first creates a fresh 0x1000-byte area at an address `a ≥ 0x1000` that collides with nothing and then behaves
+    exactly as `brk(arg)` on that heap. -/
+theorem brk_first_call (st : BrkState) (arg a : Nat) (m : Mem) (h0 : st.start = 0)
+    (hz : initZeroAnywhere st.mem 0x1000 = .ok (a, m)) :
+    brkCall st arg = brkMove { mem := m, start := a, len := 0x1000 } arg := by
+  simp [brkCall, brkInit, h0, hz]
+
+/-- first call as a query: brk(0), or anything below the new heap, reports base + 0x1000 -/
+theorem brk_first_query (st : BrkState) (arg a : Nat) (m : Mem) (h0 : st.start = 0)
+    (hz : initZeroAnywhere st.mem 0x1000 = .ok (a, m)) (ha : arg < a) (hfit : a + 0x1000 < U64) :
+    brkCall st arg = .ok (a + 0x1000) { mem := m, start := a, len := 0x1000 } := by
+  rw [brk_first_call st arg a m h0 hz]
+  simp [brkMove, ha, u64add, hfit]
+
+/-- first call with an address inside or above the new heap: the break moves there at once (no query needed before) -/
+theorem brk_first_set (st : BrkState) (arg a : Nat) (m m' : Mem) (h0 : st.start = 0)
+    (hz : initZeroAnywhere st.mem 0x1000 = .ok (a, m)) (ha : a ≤ arg) (harg : arg < U64)
+    (hr : resizeSection m a (arg - a) = .ok m') :
+    brkCall st arg = .ok arg { mem := m', start := a, len := arg - a } := by
+  rw [brk_first_call st arg a m h0 hz]
+  have : ¬ arg < a := by omega
+  have e : a + (arg - a) = arg := by omega
+  simp [brkMove, this, hr, u64add, e, harg]
+
+/-- with a heap in place (`start ≠ 0`) no area is ever created, whatever else is mapped (also at address 0) -/
+theorem brk_later_calls_create_nothing (st : BrkState) (arg : Nat) (hs : st.start ≠ 0) :
+    brkCall st arg = brkMove st arg := by
+  simp [brkCall, brkInit, hs]
+
 /-- a write into one readable-writable area of a well-formed, overlap-free memory succeeds -/
 theorem write_ok_in_area (m : Mem) (hm : m.WF) (hno : NoOverlap m) (ar : Area) (har : ar ∈ m) (a : Nat) (bs : List Byte)
     (hc : ar.start ≤ a) (hle : a + bs.length ≤ ar.start + ar.len) (hpos : 0 < bs.length)
